@@ -1,11 +1,11 @@
 package main
 
 import (
-	"strings"
-	"math/big"
 	"fmt"
 	"go/token"
 	"go/types"
+	"math/big"
+	"strings"
 
 	"golang.org/x/tools/go/ssa"
 )
@@ -15,7 +15,7 @@ import (
 func init() {
 	register(&Property{
 		ID:          "C04",
-		Explanation: "Complete structural argument for the connection limiter: (O1) every access to the per-source counter map is made under the limiter mutex (must-lockset over all call paths from exported methods); (O2) the only increment of connections[token] is on the admitting path of the acquire routine and the only decrement is in the release routine, both keyed by the same token and the same amount that ServeHTTP passes to both; (O3) the release is registered with defer, only on the acquire-succeeded edge, before the wrapped handler is invoked and with no call in between that could panic, so it runs on normal return and on panic, and never on the rejected edge; (O4) the acquire routine rejects exactly on the edge connections[token] - max >= 0 and performs no store on that edge. By induction connections[token] equals the number of that source's requests inside the handler and never exceeds max (amount 1). All paths of the functions involved are enumerated on the SSA CFG; nothing is executed.",
+		Explanation: "Complete structural argument for the connection limiter: (O1) every access to the per-source counter map is made under the limiter mutex (must-lockset over all call paths from exported methods); (O2) the only increment of connections[token] is on the admitting path of the acquire routine and the only decrement is in the release routine, both keyed by the same token and the same amount that ServeHTTP passes to both; (O3) the release is registered with defer, only on the acquire-succeeded edge, before the wrapped handler is invoked and with no call in between that could panic, so it runs on normal return and on panic, and never on the rejected edge; (O4) the acquire routine rejects exactly on the edge connections[token] - max >= 0 and performs no store on that edge. By induction connections[token] equals the number of that source's requests inside the handler and never exceeds max (amount 1). All paths of the functions involved are enumerated on the SSA CFG; nothing is executed. R2 also: delete(connections, k) is reachable only on an edge implying the new count is zero (count read after the decrement compared with 0, or count - amount before it). R5 (= C19.R1/R2): the built-in extractors name the source exactly.",
 		NotDecided: []string{
 			"custom extractors returning amount > 1 can overshoot max by amount-1 (the statement counts requests; built-in extractors return 1, see C19.R3)",
 			"behaviour of user-supplied extractors and handlers beyond 'may panic, may run arbitrary code, do not touch limiter state'",
@@ -311,7 +311,38 @@ func runC04(p *Prog, r *Report) {
 						continue
 					}
 					seen = cm.String()
-					if zeroCountCmp(cm) {
+					// is the count read after the decrement was stored (then it IS the new count) or before
+					// (then the new count is count - amount)?
+					post := false
+					var walk func(v ssa.Value, d int)
+					walk = func(v ssa.Value, d int) {
+						if d > 6 || v == nil {
+							return
+						}
+						switch x := v.(type) {
+						case *ssa.Lookup:
+							for _, bb := range c.release.Blocks {
+								for _, in := range bb.Instrs {
+									if mu, ok := in.(*ssa.MapUpdate); ok && mapFieldOf(mu.Map, c.typ, c.mapField) && Reach(c.release, mu, nil, nil)[x] {
+										post = true
+									}
+								}
+							}
+						case *ssa.BinOp:
+							walk(x.X, d+1)
+							walk(x.Y, d+1)
+						case *ssa.UnOp:
+							walk(x.X, d+1)
+						case *ssa.Convert:
+							walk(x.X, d+1)
+						case *ssa.Phi:
+							for _, e := range x.Edges {
+								walk(e, d+1)
+							}
+						}
+					}
+					walk(ifi.Cond, 0)
+					if zeroCountCmp(cm, post) {
 						okDel = true
 					}
 				}
@@ -584,7 +615,7 @@ func checkC04Admission(p *Prog, r *Report, c *connLim) {
 
 // zeroCountCmp: the comparison reads count == 0, count <= 0 or count < 1 where count is one map lookup,
 // optionally minus one other (non-constant) term: D is +-(lookup) or +-(lookup - amount), no constant > 0.
-func zeroCountCmp(c LinCmp) bool {
+func zeroCountCmp(c LinCmp, post bool) bool {
 	d := c.D.norm()
 	if _, ok := d.Q.isConst(); !ok {
 		return false
@@ -608,6 +639,12 @@ func zeroCountCmp(c LinCmp) bool {
 	}
 	if nLookup != 1 || nOther > 1 || (nOther == 1 && otherSign == lookSign) {
 		return false
+	}
+	if post && nOther != 0 {
+		return false // the count read after the decrement is compared with something else than zero
+	}
+	if !post && nOther != 1 {
+		return false // the count read before the decrement must be reduced by the amount first
 	}
 	k := new(big.Rat)
 	if c0, ok := d.P[""]; ok {
@@ -634,5 +671,7 @@ func mutantsC04() []Mutant {
 		{Name: "unlock-release", File: f, Old: "func (cl *ConnLimiter) release(token string, amount int64) {\n\tcl.mutex.Lock()\n\tdefer cl.mutex.Unlock()\n", New: "func (cl *ConnLimiter) release(token string, amount int64) {\n", Expect: "C04.R1"},
 		{Name: "increment-before-check", File: f, Old: "\tconnections := cl.connections[token]\n\tif connections >= cl.maxConnections {", New: "\tcl.connections[token] += amount\n\tconnections := cl.connections[token]\n\tif connections > cl.maxConnections {", Expect: "C04.R"},
 		{Name: "release-in-closure-after", File: f, Old: "\tdefer cl.release(token, amount)\n", New: "\tdefer func() { cl.release(token, 1) }()\n", Expect: "C04.R2"},
+		{Name: "release-drops-entry-early", File: "connlimit/connlimit.go", Old: "\tif cl.connections[token] == 0 {\n", New: "\tif cl.connections[token] <= amount {\n", Expect: "C04.R2"},
+		{Name: "header-extractor-raw-lookup", File: "utils/source.go", Old: "req.Header.Get(header)", New: "strings.Join(req.Header[header], \",\")", Expect: "C04.R5"},
 	}
 }
